@@ -299,10 +299,12 @@ def gen_config(rng, all_atom=None, tier="quick"):
     mass_of = masses or {f["name"]: f["mass"] for f in frags}
     mean_mass = sum(mass_of.values()) / len(mass_of)
     steps = rng.choice([0, 1, 2, 3, 5, 8, 13, 21, 34, 55, 110] if tier == "thorough" else [0, 1, 2, 3, 4, 6, 9, 11, 14, 22, 22] + ([105] if rng.random() < 0.15 else [14]))
+    if rng.random() < 0.004:
+        steps = rng.choice([1050, 1100, 1300])     # occasionally a really long chain (more than a thousand growth steps)
     target = rng.choice([steps * mean_mass * rng.uniform(0.7, 1.2), steps * mean_mass, -5.0, 0.0]) if rng.random() < 0.2 \
         else steps * mean_mass * rng.uniform(0.8, 1.1)
     # bound the number of growth steps (smallest mass decides): long runs are occasional, never unbounded
-    cap_steps = 130 if steps > 60 else 60
+    cap_steps = 1500 if steps > 1000 else (130 if steps > 60 else 60)
     target = min(target, cap_steps * min(m for n, m in mass_of.items() if n in {f["name"] for f in frags}))
     start = rng.choice([f["name"] for f in frags]) if rng.random() < 0.4 else None
     return {
